@@ -95,6 +95,9 @@ def cases(tier):
                            {"variant": "fried", "nx": nx, "depth": f, "atm": atm}, False)
 
 
+    for nx, nc in (((350, 2),) if tier == "quick" else ((350, 2), (520, 1), (300, 3))):
+        atm = (0.1, 0.2, 25.0)
+        yield Case("vk:big:nx=%d:nc=%d" % (nx, nc), {"variant": "vk", "nx": nx, "depth": nc, "atm": atm, "big": True}, True)
     # Configurations on which the unchanged library refuses to construct (Cholesky of an ill-conditioned
     # stencil covariance raises LinAlgError): outside the property ("for which construction succeeds") as long
     # as they are refused - but if a changed library constructs them anyway, the identities are judged.
@@ -104,6 +107,54 @@ def cases(tier):
             for nc in (2, 3):
                 yield Case("vk:ill:nx=%d:nc=%d:%s" % (nx, nc, tag), {"variant": "vk", "nx": nx, "depth": nc, "atm": atm}, False)
         yield Case("fried:ill:nx=9:f=2:%s" % tag, {"variant": "fried", "nx": 9, "depth": 2, "atm": atm}, False)
+
+
+def _evaluate_big(p):
+    """A configuration with more than 1024 stencil + new-row points (block-wise implementations change behaviour
+    there): the complete affine map is too large to extract pixel by pixel, so the response is extracted for every
+    documented stencil pixel, for a spread of other pixels (which must have no influence) and for every
+    innovation, and the same covariance identities are judged."""
+    from aotools.turbulence import infinitephasescreen as ips
+    o = Out()
+    ps, r0, L0 = p["atm"]
+    nx, nc = p["nx"], p["depth"]
+    obj = ips.PhaseScreenVonKarman(nx, ps, r0, L0, random_seed=SeqGenerator(()), n_columns=nc)
+    o.stat("lib_calls", 1)
+    o.stat("nontrivial", 1)
+    pr = _Prober(obj, o)
+    H, W = pr.H, pr.W
+    S_ref = geom.vk_stencil(nx, nc)
+    zero = numpy.zeros((H, W))
+    A = numpy.empty((W, len(S_ref)))
+    buf = zero.copy()
+    for c, (i, j) in enumerate(S_ref):
+        buf[i, j] = 1.0
+        A[:, c], _ = pr.step(buf)
+        buf[i, j] = 0.0
+    worst_other = 0.0
+    for k in range(0, H * W, max(1, (H * W) // 97)):
+        i, j = divmod(k, W)
+        if (i, j) in set(S_ref):
+            continue
+        buf[i, j] = 1.0
+        x, _ = pr.step(buf)
+        buf[i, j] = 0.0
+        worst_other = max(worst_other, _maxabs(x))
+    o.close("stencil_support", worst_other, 0.0, detail="a pixel outside the documented stencil influences the new row")
+    Bop = numpy.empty((W, W))
+    for k in range(W):
+        d = numpy.zeros(W)
+        d[k] = 1.0
+        Bop[:, k], _ = pr.step(zero, d)
+    Zpos = numpy.array(S_ref, dtype=float) * ps
+    Xpos = numpy.array(geom.new_row_coords(W), dtype=float) * ps
+    Czz = vk_cov.covariance_matrix(Zpos, Zpos, r0, L0)
+    Cxz = vk_cov.covariance_matrix(Xpos, Zpos, r0, L0)
+    Cxx = vk_cov.covariance_matrix(Xpos, Xpos, r0, L0)
+    B0 = vk_cov.variance(r0, L0)
+    o.close("A_Czz_eq_Cxz", _maxabs(A @ Czz - Cxz) / B0, TOL_COV)
+    o.close("A_Czz_At_plus_BBt_eq_Cxx", _maxabs(A @ Czz @ A.T + Bop @ Bop.T - Cxx) / B0, TOL_COV)
+    return o
 
 
 ILL_CONDITIONED = [(0.01, 0.2, 1e4), (0.001, 0.2, 1e3), (0.0005, 0.1, 1e3), (0.002, 0.2, 300.0)]
@@ -140,6 +191,8 @@ class _Prober(object):
 
 
 def evaluate(p):
+    if p.get("big"):
+        return _evaluate_big(p)
     from scipy import linalg
     from aotools.turbulence import infinitephasescreen as ips
     o = Out()
@@ -226,6 +279,18 @@ def evaluate(p):
     x, ret = pr.step(s.reshape(H, W), d)
     worst = max(worst, _maxabs(x - (Lop @ s + Bop @ d)) / 4.0)
     o.close("affine_superposition", worst / scale, TOL_ALG)
+    x_dense, ret_dense = x, ret
+    # "for all innovation vectors": large entries too (b is unbounded; an entry of 10 or 1000 standard deviations
+    # is an input like any other for an affine map)
+    worst = 0.0
+    for k in range(0, W, max(1, W // 3)):
+        for c in (10.0, -50.0, 1.0e3):
+            d = numpy.zeros(W)
+            d[k] = c
+            xl, _ = pr.step(zero, d)
+            worst = max(worst, _maxabs(xl - c * Bop[:, k]) / (abs(c) * scale))
+    o.close("affine_in_large_innovations", worst, TOL_ALG)
+    x, ret = pr.step(s.reshape(H, W), ((numpy.arange(W) * 3) % 7 - 3).astype(float))     # the dense step again (last state)
 
     # observation point named in the anchors: .scrn / return value of add_row -----------------
     view_ok = (numpy.shape(ret) == (req, req)
